@@ -74,7 +74,9 @@ def make_wiki(cfg):
         articles += [("Rd", None), ("Alpha", None)]
     if cfg["two"]:
         articles.append(("Beta", None))
-    if cfg["missing"]:
+    if cfg["missing"] == "last":
+        articles.append(("Zz missing page", None))  # (its failing requests are the last ones to complete)
+    elif cfg["missing"]:
         articles.insert(1 if articles else 0, ("Missing page", None))
     contributors = {"Alpha": {"named": ["Ann", "Bob", "Cid", "Dee"] if cfg.get("many") else ["Ann", "Bob"], "bots": ["CleanupBot"], "anon": 3},
                     # (with `two`: a page edited by logged-out users only - the API then sends no "contributors" key at all)
@@ -99,11 +101,11 @@ class Configs(Space):
                         if revs in ("both", "both-reversed", "two-pins") and tier == "quick" and (img == "shared" or tdepth == 1):
                             continue
                         for two in (False, True):
-                            for missing in (False, True):
+                            for missing in (False, True, "last"):
                                 for noimages in (False, True):
                                     for limit in ((1, 50, 2) if tier != "quick" else (1, 50)):
                                         for chapters in (False, True):
-                                            if tier == "quick" and (chapters or (missing and two) or (noimages and img == "none")):
+                                            if tier == "quick" and (chapters or (missing is True and two) or (noimages and img == "none")):
                                                 continue
                                             cs.append({"tdepth": tdepth, "img": img, "redirect": red, "revs": revs, "two": two, "missing": missing,
                                                        "noimages": noimages, "limit": limit, "chapters": chapters, "sched": ()})
@@ -275,6 +277,8 @@ def judge(cfg, run):
         bad("fetch-raises:" + exc_signature(e), "make_nuwiki raised %s: %s" % (type(e).__name__, str(e)[:200]))
         return viol, ("raised",)
     for ctx, typ, msg in run["errors"]:
+        if "The page you specified doesn't exist" in msg:
+            continue  # the wiki's answer for a page that is not there: logged by the fetcher, the page is skipped
         bad("greenlet-error:%s" % typ, "unhandled %s in a fetcher greenlet: %s (%s)" % (typ, msg[:200], ctx[:80]))
     try:
         w = nuwiki.Adapt(run["fsdir"])
